@@ -113,7 +113,9 @@ class Lifespan:
         elif message["type"] == "lifespan.shutdown.complete":
             self.shutdown.set()
         elif message["type"] == "lifespan.startup.failed":
-            self.startup.set()
+            # The startup event is set once the app has unwound (see
+            # handle_lifespan), so that the failure is visible to
+            # whatever waits for startup.
             raise LifespanFailureError("startup", message.get("message", ""))
         elif message["type"] == "lifespan.shutdown.failed":
             self.shutdown.set()
